@@ -806,3 +806,61 @@ def load(path):
     return ast.parse(open(path).read())
 
 
+
+
+# ----------------------------------------------------------------------------------------------
+# plumbing fingerprint of a public score function
+# ----------------------------------------------------------------------------------------------
+def translate_plumbing(tree, site):
+    """site: dict(func, name).  Reads: the gather_dimensions call (positional args as text, weights_dims / specific
+    keywords), the apply_weights calls, and the reductions `<x>.<method>(dim=<var assigned from gather>)`."""
+    fn = find_function(tree, site["func"])
+    gathers = [c for c in ast.walk(fn) if isinstance(c, ast.Call) and src(c.func).split(".")[-1] == "gather_dimensions"]
+    if len(gathers) != 1:
+        raise Unsupported(f"expected exactly one gather_dimensions call, found {len(gathers)}")
+    g = gathers[0]
+    args = [src(a) for a in g.args]
+    kws = {k.arg for k in g.keywords}
+    if None in kws or not kws <= {"reduce_dims", "preserve_dims", "weights_dims", "score_specific_fcst_dims"}:
+        raise Unsupported("unexpected gather_dimensions keywords " + str(kws))
+    for k in g.keywords:
+        if k.arg in ("reduce_dims", "preserve_dims") and src(k.value) != k.arg:
+            raise Unsupported(f"gather_dimensions({k.arg}={src(k.value)})")
+    # the variable(s) the gathered dims are assigned to
+    gvars = set()
+    for st in ast.walk(fn):
+        if isinstance(st, ast.Assign) and any(c is g for c in ast.walk(st.value)):
+            for t in st.targets:
+                if isinstance(t, ast.Name):
+                    gvars.add(t.id)
+    if not gvars:
+        raise Unsupported("result of gather_dimensions is not assigned to a name")
+    events = []   # (lineno, col, kind, detail)
+    for c in ast.walk(fn):
+        if not isinstance(c, ast.Call):
+            continue
+        fname = src(c.func).split(".")[-1]
+        if fname == "apply_weights":
+            events.append((c.lineno, c.col_offset, "w", ""))
+        elif isinstance(c.func, ast.Attribute) and fname in ("mean", "sum", "nanmean", "nansum", "median", "max", "min", "count", "std", "var"):
+            dim = None
+            for k in c.keywords:
+                if k.arg == "dim":
+                    dim = k.value
+            if dim is None and c.args:
+                dim = c.args[0]
+            if dim is not None and isinstance(dim, ast.Name) and dim.id in gvars:
+                events.append((c.lineno, c.col_offset, "r", fname))
+    events.sort()
+    nw = sum(1 for e in events if e[2] == "w")
+    reds = [e[3] for e in events if e[2] == "r"]
+    if not reds:
+        raise Unsupported("no reduction over the gathered dims found")
+    first_red = min(i for i, e in enumerate(events) if e[2] == "r")
+    # a weights call nested in the same expression as the reduction (x.apply(...).mean(dim=...)) has a larger column but is evaluated first
+    before = all((e[0], e[1]) < (events[first_red][0], events[first_red][1]) or e[0] == events[first_red][0] for e in events if e[2] == "w")
+    cs = lambda l: "[" + "; ".join('"' + x.replace('"', "'") + '"' for x in l) + "]"  # noqa: E731
+    b = lambda v: "true" if v else "false"  # noqa: E731
+    return (f"Definition {site['name']} : plumbing :=\n  {{| pl_gather_args := {cs(args)}; pl_weights_dims := {b('weights_dims' in kws)}; "
+            f"pl_specific := {b('score_specific_fcst_dims' in kws)}; pl_apply_weights := {nw};\n     pl_weights_before_reduce := {b(before)}; "
+            f"pl_reductions := {cs(reds)} |}}.\n")
